@@ -536,5 +536,7 @@ func TestCheck(t *testing.T) {
 		maxBomb = 256 << 20
 	}
 	vlib.RunCheck(r, vlib.Check[Case]{Name: "limits", N: r.Pick(8000, 300000), Gen: gen(maxBomb), Run: runCase})
+	vlib.RunCases(r, "path-cells", pathCells(), runPath, true)
+	vlib.RunCheck(r, vlib.Check[PathCase]{Name: "paths", N: r.Pick(500, 10000), Gen: genPath, Run: runPath, Confirm: true, RecordCurrent: true})
 	r.Finish()
 }
